@@ -174,7 +174,8 @@ func c16Exec(op string) string {
 		note("JsonWriter wrote other bytes than Json returns")
 	}
 	w.Reset()
-	if raw, err := mv.JsonWriterRaw(&w, true); err != nil || !bytes.Equal(w.Bytes(), js0) || !bytes.Equal(raw, js0) {
+	keptRaw, err := mv.JsonWriterRaw(&w, true)
+	if err != nil || !bytes.Equal(w.Bytes(), js0) || !bytes.Equal(keptRaw, js0) {
 		note("JsonWriterRaw(safe) wrote/returned other bytes than Json(safe) returns")
 	}
 	w.Reset()
@@ -182,8 +183,26 @@ func c16Exec(op string) string {
 		note("JsonIndentWriter wrote other bytes than JsonIndent returns")
 	}
 	w.Reset()
-	if raw, err := mv.JsonIndentWriterRaw(&w, pre, ind); err != nil || !bytes.Equal(w.Bytes(), ji0) || !bytes.Equal(raw, ji0) {
+	keptRawI, err := mv.JsonIndentWriterRaw(&w, pre, ind)
+	if err != nil || !bytes.Equal(w.Bytes(), ji0) || !bytes.Equal(keptRawI, ji0) {
 		note("JsonIndentWriterRaw wrote/returned other bytes than JsonIndent returns")
+	}
+	{
+		// what a Raw form returned is the caller's: later Writer-form calls (other content, other form,
+		// shorter and longer) leave it alone
+		var w2 bytes.Buffer
+		other := mxj.Map{"zz": "later", "n": []interface{}{1.0, "two"}}
+		other.JsonWriter(&w2)
+		other.JsonIndentWriterRaw(&w2, " ", "\t")
+		mv.JsonWriter(&w2)
+		other.JsonWriterRaw(&w2, true)
+		mv.JsonIndentWriter(&w2, "\t", " ")
+		if !bytes.Equal(keptRaw, js0) {
+			note("RAWKEPT the bytes JsonWriterRaw returned changed during later Writer-form calls: " + clip(string(keptRaw), 120))
+		}
+		if !bytes.Equal(keptRawI, ji0) {
+			note("RAWKEPT the bytes JsonIndentWriterRaw returned changed during later Writer-form calls: " + clip(string(keptRawI), 120))
+		}
 	}
 	// equal content, other Go container types (a sub-document attached as mxj.Map, a YAML decoder's
 	// map[interface{}]interface{}, map[string]string, []string): the encoders coerce them (issue #48
